@@ -352,7 +352,7 @@ ADDENDA = {
     'C07': 'Also generated: drop-ins removed and re-added before the run (priority model replays the operations), kill(2) costing 50-900 ms of virtual time so that the hook window closes inside a walk, sub-second ticks; in 35 % of cases directory identities are kernfs-style 64-bit ids (generation << 32 | slot, slot kept per path) handed out by the shim in fstat, so a re-created cgroup differs from its predecessor only in the upper half.',
     'C08': 'Also generated: sub-second ticks, pswpout missing from /proc/vmstat for some ticks, the control file a detector reads absent / unreadable / empty for watched cgroups (an unavailable value contributes nothing).',
     'C09': 'Also generated: one-tick gaps of the pgscan sample with the plugin running on three consecutive ticks; siblings emptied by an earlier kill are not eligible.',
-    'C10': 'Also enumerated: keys missing at one tick only, every child of a prefix vanishing for a tick and coming back (never sampled away), re-creation of a subtree only one non-recursive kill looks at, at every access touching it. Oracles added: a ruleset whose action can only run on a fabricated swap-out rate, an always-parking per-cgroup ruleset that must not act on re-created cgroups, containment judged per cgroup identity, and a per-case watchdog (60 s) that turns a hang into a violation.',
+    'C10': 'Also enumerated: keys missing at one tick only, every child of a prefix vanishing for a tick and coming back (never sampled away), re-creation of a subtree only one non-recursive kill looks at, at every access touching it. Oracles added: a ruleset whose action can only run on a fabricated swap-out rate, an always-parking per-cgroup ruleset that must not act on re-created cgroups, containment judged per cgroup identity, and a per-case watchdog (60 s) that turns a hang into a violation. Third campaign (sub_campaigns.statistics_under_faults): the C15 harness with absent / empty / unreadable control files appearing, changing and healing between ticks in every case; every accessor of every cgroup must report the statistic the model derives from what could be read, unavailable where it could not.',
     'C11': 'Also generated: tag attributes with empty values, sub-second ticks.',
     'C12': 'Further sub-checks: typed arguments through a harness plugin (also written as bare JSON numbers), detector-group shape mutations, and documents (valid / wrong shape at a generated node / definitely invalid) delivered through the real FsDropInService at start-up and at run time.',
     'C13': 'Also generated: operations queued in the adaptor and applied as a burst by one updateDropIns(), base rulesets with a ruleset-level cgroup.',
@@ -403,9 +403,14 @@ def run_C10(r, spec, tier):
     env = {'VP_C10_BASELINES': str(tier['baselines']), 'VP_STRIDE': str(tier['stride'])}
     enum = r.enumerate(spec['harness'], 'enum', tier['shards'], extra_env=env, timeout=tier.get('timeout'))
     agg = r.campaign(spec['harness'], 'multi', tier['gen_shards'], tier['n'], tier['size'])
+    # "the affected statistic is reported as unavailable": the C15 harness (every accessor of every cgroup against
+    # the statistics model) with control-file faults appearing, changing and healing between ticks in every case
+    agg2 = r.campaign('c15', 'stats', tier['gen_shards'], max(100, tier['n'] // 4), tier['size'],
+                      extra_env={'VP_PROP': 'C10'})
     cov = cov_from(agg)
-    cov['evaluations'] += enum['evaluations']
-    cov['distinct_nontrivial'] = len(agg['hashes'] | enum['hashes'])
+    cov['evaluations'] += enum['evaluations'] + agg2['evaluations']
+    cov['distinct_nontrivial'] = len(agg['hashes'] | enum['hashes'] | agg2['hashes'])
+    cov['sub_campaigns'] = dict(statistics_under_faults=agg2['evaluations'], statistics_labels=agg2['labels'])
     cov['enumerated'] = dict(cases_run=enum['evaluations'], total_cases_per_stride_1=enum['total_cases'],
                              stride=tier['stride'], baselines=tier['baselines'], completed=enum['completed'],
                              labels=enum['labels'])
